@@ -34,6 +34,10 @@ CONSTANTS
   SwapAmounts = {1, 3, 7, 10, 20}
   MaxRej = 5
   Sample = TRUE
+  InitIbc = 0
+  DeployExtra = {}
+  HookVariants = {}
+  UpgradeTo = {}
   MathMaxIn = 0
   MathScales = {0}
 CONSTRAINT GenConstraint
